@@ -2,7 +2,10 @@
 
 package vm
 
-import "github.com/risor-io/risor/op"
+import (
+	"github.com/risor-io/risor/object"
+	"github.com/risor-io/risor/op"
+)
 
 // Verification hooks (build tag "verif"). They only observe; with the tag off
 // the call sites compile away (verifOn is a false constant).
@@ -37,4 +40,13 @@ func (vm *VirtualMachine) VerifCodeLen() int {
 		return 0
 	}
 	return len(vm.activeCode.Instructions)
+}
+
+// VerifStackAt returns the value in operand stack slot i (0-based), or nil if
+// the slot is out of range or empty.
+func (vm *VirtualMachine) VerifStackAt(i int) object.Object {
+	if i < 0 || i >= len(vm.stack) {
+		return nil
+	}
+	return vm.stack[i]
 }
